@@ -451,6 +451,19 @@ func ruleExternalAcquireReleased() check.Rule {
 								return true
 							})
 						}
+						// the release registered as a finalizer by its method value: subs.Add(ticker.Stop)
+						if pr.method {
+							for _, op := range sc.SubOps {
+								if op.Method != "Add" || op.ArgExpr == nil {
+									continue
+								}
+								if sel, ok := ast.Unparen(op.ArgExpr).(*ast.SelectorExpr); ok && sel.Sel.Name == pr.release {
+									if id, ok := ast.Unparen(sel.X).(*ast.Ident); ok && objOf(op.Pkg.TypesInfo, id) == obj {
+										released = true
+									}
+								}
+							}
+						}
 						if released {
 							if armed {
 								c.OK(key, call.Pos(), "given back by the teardown (%s)", pr.release)
